@@ -49,3 +49,31 @@ func Harness_C04_boundaries() {
 		vReach("cert")
 	}
 }
+
+// Harness_C04_lowerBounds: the RFC's non-zero minimum lengths: sct_list<1..2^16-1> and
+// SerializedSCT<1..2^16-1> (RFC 6962 3.3), ASN.1Cert<1..2^24-1>: the empty value is refused by
+// the encoder and its would-be encoding by the decoder.
+//
+//verif:opt maxpaths=50 reach=checked
+func Harness_C04_lowerBounds() {
+	_, err := tls.Marshal(x509.SignedCertificateTimestampList{})
+	vAssert(err != nil, "an empty SCT list is not encodable (sct_list<1..2^16-1>)")
+	_, err = tls.Marshal(x509.SignedCertificateTimestampList{SCTList: []x509.SerializedSCT{}})
+	vAssert(err != nil, "an empty SCT list is not encodable (sct_list<1..2^16-1>)")
+	var l x509.SignedCertificateTimestampList
+	_, err = tls.Unmarshal([]byte{0, 0}, &l)
+	vAssert(err != nil, "00 00 is not an SCT list")
+	_, err = tls.Marshal(x509.SignedCertificateTimestampList{SCTList: []x509.SerializedSCT{{Val: nil}}})
+	vAssert(err != nil, "an empty SerializedSCT is not encodable")
+	_, err = tls.Unmarshal([]byte{0, 2, 0, 0}, &l)
+	vAssert(err != nil, "00 02 00 00 is not an SCT list")
+	_, err = tls.Marshal(ASN1Cert{})
+	vAssert(err != nil, "an empty ASN.1Cert is not encodable (<1..2^24-1>)")
+	var c ASN1Cert
+	_, err = tls.Unmarshal([]byte{0, 0, 0}, &c)
+	vAssert(err != nil, "00 00 00 is not an ASN.1Cert")
+	// lists that may be empty stay encodable
+	b, err := tls.Marshal(CertificateChain{})
+	vAssert(err == nil && bytes.Equal(b, []byte{0, 0, 0}), "an empty certificate chain is 00 00 00")
+	vReach("checked")
+}
